@@ -11,6 +11,7 @@ Oracle: a plain nested dict/list model step by step + cross-view invariants afte
 """
 import copy
 import json
+import os
 
 from .. import core, observe
 
@@ -1111,13 +1112,46 @@ def _replay_child(ops, initial=0):
 
 
 def generate(r, tier, index):
-    return {'hyp_seed': r.getrandbits(48), 'tier': tier}
+    # every sixth run happens in a re-executed interpreter started with -O (assert statements stripped)
+    return {'hyp_seed': r.getrandbits(48), 'tier': tier, 'optimised': index % 6 == 5}
+
+
+def _optimised_call(which, args, timeout):
+    import subprocess
+    import sys
+    env = dict(os.environ)
+    env['PYTHONPATH'] = core.VERIF
+    env['PYTHONDONTWRITEBYTECODE'] = '1'
+    env.setdefault('PYTHONHASHSEED', '0')
+    try:
+        p = subprocess.run([sys.executable, '-O', '-c', 'from aysim.props import c17; c17._o_worker()'], input=json.dumps({'which': which, 'args': args}).encode(),
+                           env=env, stdout=subprocess.PIPE, stderr=subprocess.PIPE, timeout=timeout, cwd=core.VERIF)
+    except subprocess.TimeoutExpired:
+        return {'status': 'timeout', 'error': 'no answer from the -O interpreter'}
+    if p.returncode != 0:
+        return {'status': 'error', 'error': p.stderr.decode()[-800:]}
+    return {'status': 'ok', 'value': json.loads(p.stdout.decode().strip().splitlines()[-1])}
+
+
+def _o_worker():
+    import sys
+    core.bootstrap()
+    stripped = True
+    assert not (stripped := False) or True
+    req = json.loads(sys.stdin.read())
+    out = _replay_child(*req['args']) if req['which'] == 'replay' else _hyp_child(*req['args'])
+    if not stripped:
+        out = {'harness': 'the -O worker did not run with assertions stripped'}
+    print(json.dumps(out, default=repr))
 
 
 def execute(sc):
     res = core.ok_result()
     st = res['stats']
-    if 'ops' in sc:
+    if sc.get('optimised'):
+        st.setdefault('probes', {})['interpreter_with_-O'] = 1
+        c = _optimised_call('replay', [sc['ops'], sc.get('initial', 0)], 120) if 'ops' in sc else _optimised_call('hyp', [sc, sc.get('tier', 'quick')], 1200)
+    elif 'ops' in sc:
         c = core.fork_call(_replay_child, (sc['ops'], sc.get('initial', 0)), timeout=60)
     else:
         c = core.fork_call(_hyp_child, (sc, sc.get('tier', 'quick')), timeout=900)
